@@ -253,11 +253,16 @@ def build(tier="quick", seed=0):
                         missing = "answered"
                     except PyRaise as e:
                         missing = e.cls_name
-                    return fields_of(it.getattr_(g, "_desc")), got, missing, list(it.call(it.getattr_(g, "_asdict"), [], {}).keys())
+                    ad = it.call(it.getattr_(g, "_asdict"), [], {})
+                    sel_names = names[::-1][:2]  # (a selection in another order: the dictionary follows the selection)
+                    ad_sel = it.call(it.getattr_(g, "_asdict"), [], {"fields": list(sel_names)})
+                    return fields_of(it.getattr_(g, "_desc")), got, missing, list(ad.keys()), dict(ad), (list(sel_names), list(ad_sel.keys()), dict(ad_sel))
 
                 def judge(p, mfields=mfields):
-                    flat, got, missing, keys = p.value
+                    flat, got, missing, keys, ad, (sel_names, sel_keys, ad_sel) = p.value
                     want = spec_merge(mfields, False)
+                    if sel_keys != sel_names:
+                        return False, f"_asdict(fields={sel_names}) has the keys {sel_keys}"
                     if flat != want:
                         return False, f"members {mfields}: flat descriptor {flat}, the rule gives {want}"
                     if missing != "AttributeError":
@@ -269,7 +274,10 @@ def build(tier="quick", seed=0):
                         d = spec_value_owner(mfields, False, n)
                         j = [nm for _, nm in mfields[d]].index(n)
                         conj.append(it.zint(got[n]) == vals[d * k + j])
-                    return z3.And(*conj), f"members {mfields}: an attribute does not answer with the first member that has the field"
+                        conj.append(it.zint(ad[n]) == vals[d * k + j])  # the dictionary view shows the same value as the attribute
+                        if n in ad_sel:
+                            conj.append(it.zint(ad_sel[n]) == vals[d * k + j])
+                    return z3.And(*conj), f"members {mfields}: an attribute / _asdict() entry does not answer with the first member that has the field"
 
                 r = prove_paths("x", th, judge, lambda m_, p, mfields=mfields: {"members": mfields})
                 total += r.paths
